@@ -224,7 +224,7 @@ check('C01', 'exploration',
 
 EXTRA_TEXT = {
     'C15': ' LIMIT 0 is a limit.',
-    'C06': ' The text rendered for a target must not depend on how the target is named (name, alias postgres, sqlalchemy dialect class); casts to every type name.',
+    'C06': ' The text rendered for a target must not depend on how the target is named (name, alias postgres, sqlalchemy dialect class); casts to every type name. Window-function statements (outside the TLA+ semantics) are judged by an engine-differential pass on sqlite3 only.',
     'C05': ' TailGen.tla enumerates what may follow a complete statement (semicolons, comments, tokens, line breaks; three-valued contract) and each tail is spelled after real statements.',
     'C04': ' Identifier paths are also rendered through SQLAlchemy for eleven ways of naming a dialect (names, the alias postgres, dialect classes) and the rendered statement is matched by TLC (TPath / MatchSegs in Lexeme.tla) under the target rules; long names and long literal bodies. String constants with special characters are rendered next to the names.',
     'C01': ' Also: derivation trees of depth 2-3 at every self-recursive nonterminal (two clauses / options of one statement together, in both orders) and every constant position spelled with every kind of constant. Clause-bearing nonterminals are also expanded as operands of other productions (operand cover).',
